@@ -91,6 +91,10 @@ class Gateway:
         self.answer_state = True
         self.connects = 0
         self.connect_delay = None  # optional callable(n_th_connect) -> seconds the ConnectResponse is delayed
+        # timing hooks (C23 round 4): called in the SAME loop callback right after a ConnectResponse was delivered
+        # (= further datagrams of the same batch), and one callback before the DisconnectResponse is delivered
+        self.after_connect_response = None
+        self.on_disconnect_request = None
 
     def _later(self, body, delay=0.0):
         loop = asyncio.get_running_loop()
@@ -111,10 +115,20 @@ class Gateway:
                     individual_address=None if mgmt else IndividualAddress(7),
                 )
                 delay = self.connect_delay(self.connects) if self.connect_delay else 0.0
-                self._later(ConnectResponse(communication_channel=self.next_channel,
-                                            data_endpoint=HPAI() if b.data_endpoint.route_back else HPAI(*GW),
-                                            crd=crd), delay)
+                resp = ConnectResponse(communication_channel=self.next_channel,
+                                       data_endpoint=HPAI() if b.data_endpoint.route_back else HPAI(*GW), crd=crd)
+                if self.after_connect_response is not None and not delay:
+                    def batch(resp=resp):
+                        self.transport.inject(resp)
+                        hook = self.after_connect_response
+                        if hook is not None:
+                            hook()
+                    asyncio.get_running_loop().call_soon(batch)
+                else:
+                    self._later(resp, delay)
         elif isinstance(b, DisconnectRequest):
+            if self.on_disconnect_request is not None:
+                asyncio.get_running_loop().call_soon(self.on_disconnect_request)
             if self.answer_disconnect:
                 self._later(DisconnectResponse(communication_channel_id=b.communication_channel_id))
         elif isinstance(b, ConnectionStateRequest):
